@@ -180,7 +180,7 @@ class C16(Prop):
         "gsc_identical_rows_fails_at", "blosum_identical_rows", "pairIdMx_spec", "blosum_relisting",
         "singleLinkage_numbering_not_first_seen", "gsc_relisting_fails_at", "pbText_is", "pbDigital_is",
         "upgma_joins_minimum", "threshold_at_attained_identity", "idFilter_dropped_by_earlier", "idFilterText_keeps_earlier",
-        "idFilterDigital_keeps_better_ranked")]
+        "idFilterDigital_keeps_better_ranked", "gsc_relisting_tie_free", "gsc_identical_rows_tie_free", "tieFree_checkable")]
     claimed = True
     technique = ("Lean 4 proof over the exact (Q) instance of a numeric-class-polymorphic executable model of esl_distance/esl_cluster/"
                  "esl_msacluster/esl_quicksort/esl_msaweight/esl_tree(UPGMA) + bit-exact differential correspondence of the Float instance "
@@ -200,8 +200,10 @@ class C16(Prop):
     level_note = ("Theorems are about exact rational arithmetic (L1); the binary64 results differ by rounding (L0, monitors use 1e-9). "
                   "Model fidelity is checked, not proved. GSC is modelled and compared bit-exactly; proved: >= 0 and sum N for every alignment; "
                   "'identical rows => identical weights' and 'relisting permutes the weights when no pairwise distances tie' are FALSE for the "
-                  "code (two known findings with Lean-proved witnesses: position-dependent tie-breaking in cluster_engine); they are "
-                  "monitored where UPGMA is tie-free throughout (exact-fraction UPGMA in the monitor). "
+                  "code (two known findings with Lean-proved witnesses: position-dependent tie-breaking in cluster_engine); both are PROVED "
+                  "under the hypothesis that is actually needed, no tie for the minimum in any UPGMA pass (gsc_relisting_tie_free, "
+                  "gsc_identical_rows_tie_free), and monitored there as well (exact-fraction UPGMA in the monitor). The UPGMA model keeps "
+                  "distances keyed by cluster identity (append-only rows) and the C position table separately; same operands, same order. "
                   "consensus_by_sample (>50000 rows) is outside the stated range and not modelled.")
     trusted_base = ["hand model of esl_distance.c (PairId, PairIdMx, DiffMx), esl_cluster.c, esl_msacluster.c, esl_quicksort.c, esl_msaweight.c "
                     "(PB text/digital, BLOSUM, GSC, IDFilter text/adv), esl_tree.c (cluster_engine UPGMA, SetCladesizes), esl_vectorops.c "
@@ -212,8 +214,8 @@ class C16(Prop):
                    "GSC with tied distances: the binary64 code can break a tie differently from exact arithmetic (two distances equal over Q "
                    "need not round to the same double), so its tree, and its weights, may differ from the Q instance by more than rounding; "
                    "the independent exact-fraction GSC oracle in the monitor is therefore applied only where no UPGMA step ties",
-                   "GSC: equal weights for identical rows and equivariance under relisting are not theorems (false in general, see known findings); "
-                   "no positive theorem for the tie-free case (monitor only)",
+                   "GSC: equal weights for identical rows and equivariance under relisting are false in general (known findings) and proved "
+                   "when no UPGMA pass has a tie for its minimum",
                    "not covered in the anchored files: esl_dst_*JukesCantor*, *PairMatch*, Average*/Connectivity, esl_tree.c beyond cluster_engine(UPGMA)/SetCladesizes, "
                    "esl_msaweight.c consensus_by_sample, benchmark/stats drivers",
                    "esl_msa_SequenceSubset is exercised (rows of the filtered MSA compared with the originals) but not modelled",
@@ -324,7 +326,7 @@ class C16(Prop):
         if n <= 40 and rng.random() < 0.2: ops.append("diffmx")
         if rng.random() < 0.25 and not big:
             ops.append("multi seq=%s maxid=%s" % ("".join(rng.choice("pgb") for _ in range(rng.randrange(2, 5))), dbits(th[1])))
-        ops.append("slink maxid=" + dbits(th[0]) + (" pre=1" if rng.random() < 0.3 else ""))
+        ops.append("slink maxid=" + dbits(th[0]) + rng.choice(["", "", "", " pre=1", " pre=1", " pre=2", " pre=3"]))
         ops.append("blosum maxid=" + dbits(th[rng.randrange(2)]))
         if n > 255:      # everything linked: the stacks of the clustering routine hold more than 255 vertices at once
             ops += ["slink maxid=" + dbits(0.0), "blosum maxid=" + dbits(0.0), "idfilter maxid=" + dbits(0.0)]
@@ -513,11 +515,13 @@ class C16(Prop):
     def _relabel(line):
         """cluster numbering is not part of the property: renumber in order of first appearance, carry nin along"""
         f = dict(x.split("=", 1) for x in line.split()[1:] if "=" in x)
+        if f["c"] == "-":
+            return (f["nc"], None, sorted(f["nin"].split(",")))
         c = [int(x) for x in f["c"].split(",")]
         m = {}
         for x in c: m.setdefault(x, len(m))
         nin = None
-        if "nin" in f:
+        if "nin" in f and f["nin"] != "-":
             old = [int(x) for x in f["nin"].split(",")]
             nin = [0] * len(old)
             for k, v in m.items():
@@ -619,12 +623,17 @@ class C16(Prop):
                 cnt("qsort"); continue
             if w[0] == "slink":
                 maxid = undbits(kv["maxid"])
-                c = [int(x) for x in f["c"].split(",")]
-                nc = int(f["nc"]); nin = [int(x) for x in f["nin"].split(",")]
+                nc = int(f["nc"])
                 comp = components(n, lambda i, j: aln.pidx(i, j) >= maxid)
-                r = self._check_partition(c, nc, comp)
-                if r: return Failure("monitor", "single linkage at %r: %s" % (maxid, r))
-                if nin != [c.count(k) for k in range(nc)]: return Failure("monitor", "cluster sizes %r inconsistent with assignment" % nin)
+                if nc != len(set(comp)): return Failure("monitor", "single linkage at %r: %d clusters reported, the link graph has %d components" % (maxid, nc, len(set(comp))))
+                if f["c"] != "-":
+                    c = [int(x) for x in f["c"].split(",")]
+                    r = self._check_partition(c, nc, comp)
+                    if r: return Failure("monitor", "single linkage at %r: %s" % (maxid, r))
+                if f["nin"] != "-":
+                    nin = [int(x) for x in f["nin"].split(",")]
+                    if sorted(nin) != sorted(comp.count(k) for k in set(comp)): return Failure("monitor", "cluster sizes %r are not the component sizes" % nin)
+                    if f["c"] != "-" and nin != [c.count(k) for k in range(nc)]: return Failure("monitor", "cluster sizes %r inconsistent with assignment" % nin)
                 cnt("slink"); continue
             if w[0] in ("idfilter", "idfilteradv"):
                 maxid = undbits(kv["maxid"])
